@@ -153,6 +153,9 @@ def run(ctx):
         regs += pool if not quick else rng.sample(pool, 6 if r > 1 else 5)
     for n in range(n_ds):
         d = gen.any_dataset(rng, gen.FAMILIES[n % len(gen.FAMILIES)])
+        if d.family == 'ugrid' and (n // len(gen.FAMILIES)) % 2 == 0:
+            # the mesh topology dummy variable written with a length-one dimension, as some models do (`int mesh(one)`)
+            d = gen.ugrid(rng, w=2, h=2, invalid=False, mesh_var_dim=True)
         for label, ds in near_misses(rng, d):
             f = features_of(ds)
             flit = features_literal(f)
@@ -202,6 +205,9 @@ def run(ctx):
         # the statements the property makes about the built-in classes, on the dataset's content
         if got == 6 and not (f['ugrid_marker'] and f['mesh_var'] and f['topo_dim2']):
             bad = bad or 'UGrid chosen for a dataset without the Conventions marker and a 2-D mesh topology variable'
+        if got in (2, 3) and f['ugrid_marker'] and f['mesh_var'] and f['topo_dim2'] and not any(
+                isinstance(sp_, int) and sp_ > 10 for c_, sp_ in matching if c_ > 6):
+            bad = bad or 'a generic CF grid class chosen for a dataset that carries the UGRID marker and a 2-D mesh topology variable'
         if got in (2, 3) and ((f['ems_version'] and f['has_ji']) or f['shoc_coords']):
             bad = bad or 'a generic CF grid class chosen for a dataset that carries the SHOC markers'
         if got is None:
